@@ -40,6 +40,17 @@ type evCase struct {
 	// back-pressure: a tiny window output buffer and a slow synchronous sink hold the trigger goroutine up
 	WinOut      int `json:"window_output_buffer,omitempty"`
 	SinkDelayMs int `json:"sink_delay_ms,omitempty"`
+	// Base (absolute ms, a multiple of 60 060 000) replaces baseTs when non-zero: "ahead of the clock" cases
+	// place the whole sequence a few hours in the future (legitimate: < 24 h), so that far-future garbage can be
+	// more than 24 h ahead of the clock and yet less than 24 h ahead of the events already accepted.
+	Base int64 `json:"base_abs_ms,omitempty"`
+}
+
+func (c *evCase) base() int64 {
+	if c.Base != 0 {
+		return c.Base
+	}
+	return baseTs
 }
 
 func durStr(ms int64) string {
@@ -207,14 +218,18 @@ func (c *evCase) rowMap(r evRow) Row {
 	}
 	switch r.G {
 	case "future":
-		m["ts"] = time.Now().Add(72 * time.Hour).UnixMilli()
+		if c.Base != 0 {
+			m["ts"] = c.Base + 22*3600*1000 + r.TS // > now+24h+MOO, but < 24 h beyond the accepted events
+		} else {
+			m["ts"] = time.Now().Add(72 * time.Hour).UnixMilli()
+		}
 	case "missing":
 	case "nil":
 		m["ts"] = nil
 	case "text":
 		m["ts"] = "not-a-time"
 	default:
-		m["ts"] = baseTs + r.TS
+		m["ts"] = c.base() + r.TS
 	}
 	return m
 }
